@@ -243,8 +243,8 @@ PROPS = {
         assumptions=['proof over a PARTIAL model: the Fatal sites of the coin arithmetic and the guard idiom protecting them; all other Fatal/panic/os.Exit sites are a classified extracted table; Go runtime panics inside libraries (JSON/RLP/ABI decoding, big.Int) are searched by child-process execution only, not proved absent'],
         model_limits='inputs run in child processes (exit status, handlePanic closure, hang, probe SEND afterwards); the failure points a finite block gas limit puts inside the handlers are enumerated exactly by the gassweep engine (every refusable store operation of a generated transaction is in turn the first one refused), not sampled'),
     'C05': dict(
-        lean_modules=['OLP.Props.C05', 'OLP.Props.C05Facts'], namespaces=['OLP.Props.C05'],
-        required_theorems=['replay_any_encoding_noop_guarded', 'replay_any_encoding_rejected_guarded', 'guarded_instance', 'canonical_instance', 'gdH_not_canonical', 'replay_deliver_noop', 'replay_check_rejected', 'executed_tx_indexed', 'index_is_stable', 'replay_noop_in_later_block', 'replay_any_encoding_noop_partial', 'reencoded_replay_executes_twice', 'canonical_guard_present'],
+        lean_modules=['OLP.Props.C05', 'OLP.Props.C05Facts', 'OLP.Props.C05Spelling'], namespaces=['OLP.Props.C05'],
+        required_theorems=['replay_any_spelling_noop', 'two_spellings_not_one', 'replay_any_encoding_noop_guarded', 'replay_any_encoding_rejected_guarded', 'guarded_instance', 'canonical_instance', 'gdH_not_canonical', 'replay_deliver_noop', 'replay_check_rejected', 'executed_tx_indexed', 'index_is_stable', 'replay_noop_in_later_block', 'replay_any_encoding_noop_partial', 'reencoded_replay_executes_twice', 'canonical_guard_present'],
         run=run_c05, replay=replay_olh('replay'), level='proof',
         assumptions=SHELL_ASSUME + ['SHA-256 of the received bytes is collision free (the hash is a parameter of the theorems)', 'the Tendermint kv tx indexer is trusted; the harness feeds it after every block as the indexer service does'],
         model_limits='re-encodings: `replay_any_encoding_noop_guarded` / `_rejected_guarded` state the property without `Canonical`, for handlers of the shape the code has since round 1 — bytes that are not the canonical serialisation of their parse are refused before anything runs (`Guarded`; tied to the source by the T3 fact `canonical_guard_present` for both entry points) — with `parse t2 = parse t1` as "the same signed content"; the older `replay_any_encoding_noop_partial` (under `Canonical`) is kept. What the shell model cannot see is a second spelling INSIDE the parse (another byte string for the same key or signature): one spelling per key and per signature in the key handlers (ED25519: Go rejects s >= L; SECP256K1: fixed length and low-s rule of Tendermint; BTCEC: compressed key only and low-s DER without trailing bytes since d4987f9 / 9dae7fc) — both exercised by the replay engine (re-encoding classes 0-10 over originals signed with the three algorithms); OLVM transactions additionally rely on the account nonce (only `stNonce > msgNonce` is rejected, S12)'),
@@ -359,8 +359,8 @@ PROPS = {
         ],
         model_limits='Validate/fee handling of the five transaction kinds, the Ethereum side (whether the external transaction exists and is final: the witnesses\' off-chain jobs) and the job store are outside the model; a negative VoteIndex panics in AddVote but is refused by Validate, which DeliverTx now runs (modelled as Res.panic, never sent by this engine: C18); malformed payloads (undecodable, contract creation, selector missing, wrong receiver) are refused since 11ae9db and are part of the generated histories; the supply cap is checked at submission only, not at mint; an ERC20 redeem addressed to the ERC contract can never be finalized (burnERC20Tokens looks the token up by tx.To()) and a failing ERC20 tracker is never archived — modelled as in the code, liveness is not part of the property'),
     'C11': dict(
-        lean_modules=['OLP.Props.C11', 'OLP.Props.C11Funcs'], namespaces=['OLP.Props.C11'],
-        required_theorems=['powerOf_is_source', 'handleStake_record_is_source', 'frozen_blocks_all_three', 'frozen_owner_cannot_withdraw', 'pending_allegation_blocks_unstake', 'withdraw_needs_bounded',
+        lean_modules=['OLP.Props.C11', 'OLP.Props.C11Funcs', 'OLP.Props.C11Clean'], namespaces=['OLP.Props.C11'],
+        required_theorems=['stake_address_changes_only_when_clean', 'same_block_unstake_blocks_change', 'powerOf_is_source', 'handleStake_record_is_source', 'frozen_blocks_all_three', 'frozen_owner_cannot_withdraw', 'pending_allegation_blocks_unstake', 'withdraw_needs_bounded',
                            'bounded_changes_only_by_own_withdraw', 'endBlock_credits_current_height', 'schedule_only_from_unstake',
                            'unlock_exactly_at_maturity', 'conservation', 'bounded_nonneg', 'withdrawn_le_staked_minus_penalty',
                            'paid_out_le_paid_in_minus_penalty', 'int64_guard_is_necessary', 'tot_eq_sum_vd',
